@@ -206,8 +206,49 @@ class Gen:
                 text += "".join("    #[%s]\n" % a for a in attrs)
         text += "    %sfn %s(%s)%s" % ("pub " if pub else "", name, ", ".join(args), " -> %s" % ret if ret else "")
         desc = dict(name=name, pub=pub, selfkind=selfkind, args=names, ret=ret, cc=cc or ("thiscall" if has_self else "system"),
-                    doc=doc_lines, index=index, address=address, text=text)
+                    cc_explicit=cc, doc=doc_lines, index=index, address=address, text=text)
         return text, desc
+
+    def render_fn(self, d, index=None):
+        """concrete syntax of a function descriptor (used to re-declare inherited slots)"""
+        text = "".join("    ///%s\n" % l for l in d["doc"])
+        attrs = []
+        if index is not None:
+            attrs.append("index(%d)" % index)
+        if d.get("cc_explicit"):
+            attrs.append('calling_convention("%s")' % d["cc_explicit"])
+        if attrs:
+            text += "    #[%s]\n" % ", ".join(attrs)
+        args = ([d["selfkind"]] if d["selfkind"] else []) + ["%s: %s" % (a, t) for a, t in d["args"]]
+        text += "    %sfn %s(%s)%s" % ("pub " if d["pub"] else "", d["name"], ", ".join(args), " -> %s" % d["ret"] if d["ret"] else "")
+        return text
+
+    def mutate_slot(self, d):
+        """one property-relevant difference from the base's slot; returns (descriptor, kind)"""
+        rng = self.rng
+        m = dict(d)
+        kinds = ["name", "receiver", "cc", "ret", "arg_count"]
+        if d["args"]:
+            kinds.append("arg_type")
+        k = rng.choice(kinds)
+        if k == "name":
+            m["name"] = d["name"] + "x"
+        elif k == "receiver":
+            m["selfkind"] = "&mut self" if d["selfkind"] == "&self" else "&self"
+        elif k == "cc":
+            m["cc_explicit"] = rng.choice([c for c in CCS if c != d["cc"]])
+        elif k == "ret":
+            m["ret"] = None if d["ret"] else "u32"
+            if d["ret"] and rng.random() < 0.5:
+                m["ret"] = "u64" if d["ret"] != "u64" else "u8"
+        elif k == "arg_count":
+            m["args"] = list(d["args"]) + [("extra", "u8")] if rng.random() < 0.5 or not d["args"] else list(d["args"][:-1])
+        else:
+            a = list(d["args"])
+            i = rng.randrange(len(a))
+            a[i] = (a[i][0], "u64" if a[i][1] != "u64" else "i8")
+            m["args"] = a
+        return m, k
 
     # -- items -----------------------------------------------------------------------------------
     def add_item(self, mod, text):
@@ -338,14 +379,25 @@ class Gen:
         texts = []
         emit_pos = 0         # the slot the next written function gets without an index attribute
         if inherit:
+            real = [i for i, d in enumerate(inherit) if d is not None]
+            mutate_at = None
+            if real and (self.want_miss() or (self.expect["miss"] is None and rng.random() < self.p.get("p_slot_mut", 0.0))):
+                mutate_at = rng.choice(real)
+                self.miss_done = True
+            drop_tail = bool(real) and mutate_at is None and self.want_miss()
             for i, d in enumerate(inherit):
                 slots.append(d)
                 if d is None:
                     continue
-                t = d["text"]
-                if i != emit_pos and d["index"] is None:
-                    t = "    #[index(%d)]\n" % i + t
-                texts.append(t)
+                if drop_tail and i == real[-1]:
+                    self.expect["miss"] = "derived vftable omits the last base slot"
+                    slots.pop()
+                    break
+                dd = d
+                if i == mutate_at:
+                    dd, kind = self.mutate_slot(d)
+                    self.expect["miss"] = "derived vftable slot differs from the base's: " + kind
+                texts.append(self.render_fn(dd, index=(i if (i != emit_pos or d["index"] is not None) else None)))
                 emit_pos = i + 1
         n = self.r(self.p["vfuncs"])
         for k in range(n):
